@@ -351,6 +351,10 @@ class _AuStop(Exception):
     pass
 
 
+class _AuRaise(Exception):
+    """an exception raised by an expression (six.ensure_str on bytes that are not text)"""
+
+
 class _Tok(int):
     """the `token` parameter of receiveChild: behaves as the integer it carries, and stays recognisable as the token"""
 
@@ -392,7 +396,10 @@ def _au_run(fn, st, loc):
             if f == "isinstance" and flat(str(U(e.args[1]))) == "defer.Deferred":
                 return False                                  # gifts (their-reference) are outside the model
             if f == "six.ensure_str" and len(e.args) == 1:
-                return ev(e.args[0])
+                v = ev(e.args[0])
+                if isinstance(v, _Tok) and not loc.get("token_is_text", True):
+                    raise _AuRaise("UnicodeDecodeError")      # bytes that are not UTF-8
+                return v
             if f == "list" and len(e.args) == 1 and flat(str(U(e.args[0]))) == "self.kwargs.keys()":
                 return "kwkeys"
             raise P.Untranslatable(q + ": call " + str(U(e))[:80])
@@ -438,6 +445,20 @@ def _au_run(fn, st, loc):
             elif isinstance(x, ast.Raise):
                 eff.append(("raise", str(U(x.exc.func)) if isinstance(x.exc, ast.Call) else str(U(x.exc))))
                 raise _AuStop()
+            elif isinstance(x, ast.Try):
+                # exactly: try: <one assignment> except UnicodeDecodeError: raise Violation(..)   (fail closed otherwise)
+                need(len(x.body) == 1 and isinstance(x.body[0], ast.Assign) and not x.orelse and not x.finalbody and
+                     len(x.handlers) == 1 and x.handlers[0].name is None and x.handlers[0].type is not None and
+                     flat(str(U(x.handlers[0].type))) == "UnicodeDecodeError" and len(x.handlers[0].body) == 1 and
+                     isinstance(x.handlers[0].body[0], ast.Raise) and isinstance(x.handlers[0].body[0].exc, ast.Call) and
+                     flat(str(U(x.handlers[0].body[0].exc.func))) == "Violation" and x.handlers[0].body[0].cause is None,
+                     q + ": statement " + str(U(x))[:120])
+                try:
+                    run(x.body)
+                except _AuRaise as r_:
+                    if r_.args[0] != "UnicodeDecodeError":
+                        raise
+                    run(x.handlers[0].body)
             elif isinstance(x, ast.Assert):
                 t = flat(str(U(x.test)))
                 if t == "accept":
@@ -477,6 +498,8 @@ def _au_run(fn, st, loc):
         run(fn.body)
     except _AuStop:
         pass
+    except _AuRaise as r_:
+        eff.append(("raise", r_.args[0]))                    # escapes the method
     return eff
 
 
@@ -484,7 +507,7 @@ def _au_reference(method, cand, st, loc):
     """what the MODEL's ArgumentUnslicer (Schema.au_child / au_close with the parameters cand) does in the same state"""
     cmpf = {"SLt": lambda a, b: a < b, "SLe": lambda a, b: a <= b, "SGt": lambda a, b: a > b, "SGe": lambda a, b: a >= b,
             "SEq": lambda a, b: a == b, "SNe": lambda a, b: a != b}[cand[0]]
-    zero_skips, first, asserts = cand[1:]
+    zero_skips, first, asserts, nontext = cand[1:]
     N, k, name = st["numargs"], st["nargs"], st["argname"]
     acc = [("assert_accept",)] if asserts else []
     if method == "receiveChild":
@@ -494,6 +517,8 @@ def _au_reference(method, cand, st, loc):
         if cmpf(k, N):
             return [("append", "token")] + ([("lookup", "getPositionalArgConstraint", (k + 1,))] + acc if cmpf(k + 1, N) else [])
         if name is None:
+            if not loc.get("token_is_text", True):
+                return [("raise", "Violation" if nontext else "UnicodeDecodeError")]
             return [("set", "argname", "token"), ("lookup", "getKeywordArgConstraint", ("token", N, "kwkeys"))] + acc
         return [("kwset", "token"), ("set", "argname", None)]
     if method == "checkToken":
@@ -532,15 +557,19 @@ def argument_unslicer_facts(cls):
         toks = (_Tok(0), _Tok(2)) if st["numargs"] is None else (_Tok(7),)
         for t in toks:
             runs.append(("receiveChild", rc, st, dict(token=t, ready_deferred=None)))
+        if st["numargs"] is not None:
+            # the token is a byte string that is not UTF-8 (only six.ensure_str looks at that)
+            runs.append(("receiveChild", rc, st, dict(token=_Tok(7), ready_deferred=None, token_is_text=False)))
         for tb in ("INT", "NEG", "STRING", "VOCAB", "OPEN", "FLOAT", "LONGINT"):
             runs.append(("checkToken", ck, st, dict(typebyte=tb, size=5)))
         runs.append(("receiveClose", close_fn, st, {}))
     observed = [(m, st, loc, _au_run(fn_, dict(st), dict(loc))) for m, fn_, st, loc in runs]
-    cands = [(c, z, f, a_) for c in ("SLt", "SLe", "SGt", "SGe", "SEq", "SNe") for z in (True, False) for f in (0, 1) for a_ in (True, False)]
+    cands = [(c, z, f, a_, nt) for c in ("SLt", "SLe", "SGt", "SGe", "SEq", "SNe") for z in (True, False) for f in (0, 1)
+             for a_ in (True, False) for nt in (True, False)]
     fit = [cd for cd in cands if all(_au_reference(m, cd, st, loc) == eff for m, st, loc, eff in observed)]
     if len(fit) != 1:
         why = ""
-        ref = ("SLt", True, 0, True)
+        ref = ("SLt", True, 0, True, True)
         for m, st, loc, eff in observed:
             if _au_reference(m, ref, st, loc) != eff:
                 why = "; e.g. %s in state %s with %s does %s, the reference text does %s" % (
@@ -548,11 +577,13 @@ def argument_unslicer_facts(cls):
                 break
         raise P.Untranslatable(q + ": %d parameter settings of the model's machine reproduce the effects of checkToken / "
                                "receiveChild / receiveClose on all %d small states%s" % (len(fit), len(observed), why))
-    cmp_, zero_skips, first, asserts = fit[0]
+    cmp_, zero_skips, first, asserts, nontext = fit[0]
     out = ["Definition au_pos_cmp : scmp := %s.  (* len(self.args) OP self.numargs: a positional value is still expected *)" % cmp_,
            "Definition au_count_zero_skips : bool := %s.  (* a zero count skips the first constraint lookup *)" % ("true" if zero_skips else "false"),
            "Definition au_first_index : Z := %d.  (* ms.getPositionalArgConstraint(%d) after the count *)" % (first, first),
-           "Definition au_asserts_accept : bool := %s.  (* `assert accept` after every constraint lookup *)" % ("true" if asserts else "false")]
+           "Definition au_asserts_accept : bool := %s.  (* `assert accept` after every constraint lookup *)" % ("true" if asserts else "false"),
+           "Definition au_nontext_name_violation : bool := %s.  (* a keyword name that is not UTF-8: six.ensure_str's "
+           "UnicodeDecodeError is turned into a Violation (true) or escapes the unslicer (false) *)" % ("true" if nontext else "false")]
     st = [flat(str(U(x))) for x in P.find_def(cls, "start").body]
     for frag in ("self.numargs = None", "self.args = []", "self.kwargs = {}", "self.argname = None", "self.argConstraint = None"):
         need(frag in st, q + ".start no longer contains " + frag)
@@ -925,6 +956,23 @@ def generate():
         need(frag in asrc, "ArgumentUnslicer no longer contains: " + frag)
     # ---------------------------------------------------------------- ArgumentUnslicer as a state machine (call.py)
     out.extend(argument_unslicer_facts(arg))
+    # CallUnslicer.receiveChild, stage 2: the method name goes through six.ensure_str too (shape fact; the stages before the
+    # arguments are not in the model, the oracle drives this site)
+    cu = P.find_class(P.load("call.py"), "CallUnslicer")      # (the stage may live in a helper method of the class)
+    sites = [n for n in ast.walk(cu) if isinstance(n, ast.Assign) and flat(str(U(n))) == "self.methodname = six.ensure_str(token)"]
+    need(len(sites) == 1, "CallUnslicer: self.methodname = six.ensure_str(token)")
+    guarded_ = [n for n in ast.walk(cu) if isinstance(n, ast.Try) and len(n.body) == 1 and n.body[0] is sites[0]]
+    if guarded_:
+        t_ = guarded_[0]
+        need(not t_.orelse and not t_.finalbody and len(t_.handlers) == 1 and t_.handlers[0].type is not None and
+             flat(str(U(t_.handlers[0].type))) == "UnicodeDecodeError" and len(t_.handlers[0].body) == 1 and
+             isinstance(t_.handlers[0].body[0], ast.Raise) and isinstance(t_.handlers[0].body[0].exc, ast.Call) and
+             flat(str(U(t_.handlers[0].body[0].exc.func))) == "Violation", "CallUnslicer.receiveChild: handler around the method name changed")
+    else:
+        need(not any(isinstance(n, ast.Try) and any(m is sites[0] for m in ast.walk(n)) for n in ast.walk(cu)),
+             "CallUnslicer.receiveChild: the method name is decoded inside an unrecognised try statement")
+    out.append("Definition methodname_nontext_violation : bool := %s.  (* a method name that is not UTF-8 -> Violation (true) / "
+               "UnicodeDecodeError escapes (false) *)" % ("true" if guarded_ else "false"))
     # the two unknown-argument flags of RemoteMethodSchema(**kwargs)
     gkf = flat(str(gk))
     i_ign, i_acc = gkf.find("if self.ignoreUnknown: return (False, None)"), gkf.find("if self.acceptUnknown: return (True, None)")
